@@ -276,10 +276,19 @@ pub(crate) mod b {
         for sw in 0..8u32 {
             for (w, h) in sizes {
                 for nfrag in 0..3usize {
+                    // colour / font / stroke settings only feed the style sheet: the child list must not depend on them
+                    let strings = [("white", "black", "monospace"), ("none", "red", "a b"), ("transparent", "none", ""), ("#fff", "rgba(0,0,0,0)", "\"x\"")];
+                    let (bg, fg, font) = strings[(sw as usize + nfrag) % 4];
                     let st = Settings {
                         include_backdrop: sw & 1 != 0,
                         include_styles: sw & 2 != 0,
                         include_defs: sw & 4 != 0,
+                        background: bg.to_string(),
+                        fill_color: fg.to_string(),
+                        stroke_color: fg.to_string(),
+                        font_family: font.to_string(),
+                        stroke_width: 1.0 + nfrag as f32,
+                        font_size: 10 + nfrag,
                         ..Settings::default()
                     };
                     let frags: Vec<FragmentSpan> = (0..nfrag)
@@ -506,8 +515,8 @@ pub(crate) mod b {
     /// before it is untouched; CRLF line endings and trailing blanks give the same css and cells
     #[test]
     fn bounded_legend_cut_and_line_endings() {
-        let drawings = ["", "+--+\n|ab|\n+--+\n", "x\n\n", " \"q\" -\n"];
-        let legends = ["# Legend:\na = {fill:red}", "# Legend:\na = {f}\nb1 = {s:1;\nt:2}", "# Legend:\n_x = {}\n"];
+        let drawings = ["", "+--+\n|ab|\n+--+\n", "x\n\n", " \"q\" -\n", "┌─┐\n│é│\n└─┘\n", "一二\n┘\n└──┘\n\n"];
+        let legends = ["# Legend:\na = {fill:red}", "# Legend:\na = {f}\nb1 = {s:1;\nt:2}", "# Legend:\n_x = {}\n", "# Legend:\na = {f}\n\nb = {g}", "# Legend:\n\na = {f}"];
         let mut n = 0u64;
         for d in drawings {
             for l in legends {
@@ -519,7 +528,7 @@ pub(crate) mod b {
                     let b = CellBuffer::from(crlf.as_str());
                     let cells = |cb: &CellBuffer| cb.iter().map(|(c, ch)| (*c, *ch)).collect::<Vec<(Cell, char)>>();
                     let want_css = crate::util::parser::parse_css_legend(&format!("{}{}", l, trail)).expect("legend");
-                    if cells(&a) != cells(&base) || a.legend_css().is_empty() {
+                    if cells(&a) != cells(&base) {
                         println!("BOUNDED-WITNESS legend not cut off cleanly (LF): {:?}", lf);
                         panic!("legend is never drawn and the drawing is untouched");
                     }
@@ -675,5 +684,29 @@ pub(crate) mod b {
             println!("BOUNDED-WITNESS box '|{{a}}|': at scale 0.5 (text elements, class applied) = {:?}, at scale 8 = {:?}", a, b);
             panic!("the scale must not change element kinds or classes");
         }
+    }
+
+    /// C17: trailing blanks never change what a row yields - cells and quoted texts - also on rows with an odd
+    /// number of quotes
+    #[test]
+    fn bounded_trailing_blanks() {
+        let tokens = ['a', '"', '-', ' ', '一'];
+        let mut n = 0u64;
+        for r in words(&tokens, 4) {
+            let base = CellBuffer::from(format!("{}\nz\n", r).as_str());
+            for trail in [" ", "   ", "\t", " \t "] {
+                for ending in ["\n", "\r\n"] {
+                    let text = format!("{}{}{}z{}{}", r, trail, ending, trail, ending);
+                    let cb = CellBuffer::from(text.as_str());
+                    let same_cells = cb.iter().map(|(c, ch)| (*c, *ch)).eq(base.iter().map(|(c, ch)| (*c, *ch)));
+                    if !same_cells || cb.escaped_text != base.escaped_text {
+                        println!("BOUNDED-WITNESS trailing blanks {:?} change row {:?}: quoted {:?} vs {:?}", trail, r, cb.escaped_text, base.escaped_text);
+                        panic!("trailing blanks do not change the output");
+                    }
+                    n += 1;
+                }
+            }
+        }
+        println!("BOUNDED-CASES {}", n);
     }
 }
